@@ -193,3 +193,40 @@ package dastard
 //@     invariant 0 <= row && row <= g.Nchan && AGroupsOK(as) && unchanged(as.groupKeysSorted, as.groups, as.nchan) && as.channelsPerPixel == 1 && ncol == len(as.groupKeysSorted)
 //@     invariant tables: ATables(as, as.agch[rangeindex1] + row)
 //@     invariant geo: AGeoAll(as, as.agch[rangeindex1] + row)
+
+// ---- Default (simulated sources) and ROACH numbering: one group, channel number == index ----
+//@ func (*AnySource).PrepareChannels
+//@   props C19
+//@   requires ds.nchan >= 0
+//@   ensures noerr: result == nil && ds.channelsPerPixel == 1
+//@   ensures tables: len(ds.chanNumbers) == ds.nchan && len(ds.chanNames) == ds.nchan && len(ds.subframeOffsets) == ds.nchan
+//@   ensures identity: forall i int :: {ds.chanNumbers[i]} 0 <= i && i < ds.nchan ==> ds.chanNumbers[i] == i
+//@   ensures groups: len(ds.groupKeysSorted) == 1 && ds.groupKeysSorted[0].Firstchan == 0 && ds.groupKeysSorted[0].Nchan == ds.nchan
+//@   modifies ds.channelsPerPixel, ds.groupKeysSorted, ds.chanNames, ds.chanNumbers, ds.subframeOffsets
+//@   loop 1
+//@     invariant 0 <= i && i <= ds.nchan && unchanged(ds.nchan) && ds.channelsPerPixel == 1
+//@     invariant len(ds.chanNumbers) == ds.nchan && len(ds.chanNames) == ds.nchan && len(ds.subframeOffsets) == ds.nchan && fresh(ds.chanNumbers) && fresh(ds.chanNames) && fresh(ds.subframeOffsets) && fresh(ds.groupKeysSorted)
+//@     invariant groups: len(ds.groupKeysSorted) == 1 && ds.groupKeysSorted[0].Firstchan == 0 && ds.groupKeysSorted[0].Nchan == ds.nchan
+//@     invariant identity: forall j int :: {ds.chanNumbers[j]} 0 <= j && j < i ==> ds.chanNumbers[j] == j
+
+// The ROACH code packs the channel count into 16 bits, so the decode claim needs nchan < 65536.
+//@ func (*RoachSource).PrepareChannels
+//@   props C19
+//@   requires 0 <= rs.nchan && rs.nchan < 65536
+//@   ensures noerr: result == nil && rs.channelsPerPixel == 1
+//@   ensures tables: len(rs.chanNumbers) == rs.nchan && len(rs.chanNames) == rs.nchan && len(rs.rowColCodes) == rs.nchan && len(rs.subframeOffsets) == rs.nchan
+//@   ensures identity: forall i int :: {rs.chanNumbers[i]} 0 <= i && i < rs.nchan ==> rs.chanNumbers[i] == i
+//@     && (rs.rowColCodes[i] / 1) % 65536 == i && (rs.rowColCodes[i] / 65536) % 65536 == 0 && (rs.rowColCodes[i] / 4294967296) % 65536 == rs.nchan && (rs.rowColCodes[i] / 281474976710656) % 65536 == 1
+//@   ensures groups: len(rs.groupKeysSorted) == 1 && rs.groupKeysSorted[0].Firstchan == 0 && rs.groupKeysSorted[0].Nchan == rs.nchan
+//@   modifies rs.channelsPerPixel, rs.groupKeysSorted, rs.chanNames, rs.chanNumbers, rs.subframeOffsets, rs.rowColCodes
+//@   loop 1
+//@     invariant 0 <= row && row <= rs.nchan && unchanged(rs.nchan) && rs.channelsPerPixel == 1 && nrow == rs.nchan && ncol == 1 && col == 0
+//@     invariant len(rs.chanNumbers) == row && len(rs.chanNames) == row && len(rs.rowColCodes) == row && len(rs.subframeOffsets) == rs.nchan && len(rs.groupKeysSorted) == 0
+//@     invariant (rs.chanNumbers.arr == 0 || fresh(rs.chanNumbers)) && (rs.chanNames.arr == 0 || fresh(rs.chanNames)) && (rs.rowColCodes.arr == 0 || fresh(rs.rowColCodes)) && fresh(rs.subframeOffsets) && (rs.groupKeysSorted.arr == 0 || fresh(rs.groupKeysSorted))
+//@     invariant allocated(rs.chanNumbers) && allocated(rs.chanNames) && allocated(rs.rowColCodes) && allocated(rs.groupKeysSorted)
+//@     invariant identity: forall j int :: {rs.chanNumbers[j]} 0 <= j && j < row ==> rs.chanNumbers[j] == j
+//@     && (rs.rowColCodes[j] / 1) % 65536 == j && (rs.rowColCodes[j] / 65536) % 65536 == 0 && (rs.rowColCodes[j] / 4294967296) % 65536 == rs.nchan && (rs.rowColCodes[j] / 281474976710656) % 65536 == 1
+
+// AbacoSource.Sample (goroutines + channel collection) is outside the verified subset; the precondition of
+// PrepareChannels that it must establish is checked on the real code by a bounded stand-in.
+//@ bounded C19 TestVerifBoundedAbacoSampleOverlap : real Sample then PrepareChannels for every layout of 1..3 Abaco groups (first channel 0..5, 1..3 channels): accepted layouts have disjoint groups and distinct numbers/names
